@@ -265,6 +265,10 @@ func runC07(c *LCase) (viol string, overlaps int, feats []string) {
 			atomic.StoreInt32(&stopChurn, 1)
 			return "deadlock: a call did not return within " + watchdog.String() + "\n" + p, 0, nil
 		}
+		if p := engine.SpinProof(); p != "" {
+			atomic.StoreInt32(&stopChurn, 1)
+			return "a call did not return within " + watchdog.String() + "; " + p, 0, nil
+		}
 		select {
 		case <-done:
 		case <-time.After(30 * time.Second):
